@@ -6,6 +6,7 @@ CONSTANTS
   GlobClasses <- AllClasses
   MinReq = 1
   MaxReq = 1
+  AllowAlias = FALSE
   Emit = TRUE
 INVARIANTS Confined NeverHostile DistinctTargets ExactMatchesItself EmitScn
 CHECK_DEADLOCK FALSE
